@@ -349,7 +349,7 @@ func (r *report) finish() int {
 			"harness": n, "package": a.h.Sub, "bounds": a.h.Bounds, "params": a.h.params(r.tier), "paths": a.Paths, "completed": a.OK, "ended_by_assumption": a.AssumeEnd,
 			"aborted": len(a.Aborts), "reach": a.Reach, "ssa_instructions": a.Instrs, "queries": a.Queries, "branch_sides_decided_by_cached_model": a.ModelEvals,
 			"sat": a.Sat, "unsat": a.Unsat, "unknown": a.Unknown, "fallbacks": a.Fallbacks,
-			"solver_s": round2(a.SolverS), "paths_with_solver_decided_branch": a.SymPaths, "violating_labels": a.ViolCount, "assumptions": a.h.Assumes, "planted_failure_twin": a.h.Expect == "violation",
+			"solver_s": round2(a.SolverS), "paths_with_symbolic_inputs_or_solver_decided_branch": a.SymPaths, "assertions_on_symbolic_conditions_sent_to_solver": a.SymAsserts, "violating_labels": a.ViolCount, "assumptions": a.h.Assumes, "planted_failure_twin": a.h.Expect == "violation",
 			"native_confirmation": !a.h.NoNative,
 		})
 		for i, s := range a.Samples {
@@ -394,7 +394,7 @@ func (r *report) finish() int {
 			"coverage": map[string]interface{}{
 				"states": states, "transitions": transitions, "traces_validated_against_impl": validated, "samples": samples,
 				"evaluations": states, "distinct_nontrivial": symPaths,
-				"rule": "one evaluation = one feasible path of a harness, enumerated exhaustively by solver-decided forking (DFS by re-execution); a path counts as non-trivial when at least one of its branch decisions was on a symbolic condition decided by the SMT solver; paths are distinct by decision vector",
+				"rule": "one evaluation = one feasible path of a harness, enumerated exhaustively by solver-decided forking (DFS by re-execution); a path counts as non-trivial when it carries at least one symbolic input variable (so its assertions are established for every value of that variable on the path, by solver query or by identity of the hash-consed terms) or at least one branch decided by the SMT solver; paths are distinct by decision vector",
 				"distinct_paths": distinct, "exhaustive_within_bounds": len(inconclusive) == 0,
 				"functions_encoded": encoded, "harnesses": hsum, "stubs_bound": stubList,
 				"queries_discharged": queries, "solver_time_s": round2(solverS), "solver": r.Solver + " (incremental, one process per worker); fallback z3-new 5.1.0 then cvc5 on unknown",
